@@ -150,7 +150,10 @@ func newWorld(s *core.Sched, sc *Scenario, real bool) *World {
 				}))
 			}
 		}
-		w.real = newRealNet(mux, int64(s.Tape.Choose(1<<30, "real.lag.seed")))
+		w.real = newRealNet(mux, int64(s.Tape.Choose(1<<30, "real.lag.seed")), func(r *http.Request) bool {
+			o := w.byID[r.Header.Get(callHeader)]
+			return o != nil && o.Plan.K.NoFlusher
+		})
 		w.shutdown = make(chan struct{})
 		realShutdown = w.shutdown
 	}
